@@ -83,13 +83,19 @@ pub fn integerize(n: &HNode) -> HNode {
 
 /// decorate names with spaces, quotes, backslashes and non-ascii characters (injective)
 pub fn fancy_names(n: &HNode) -> HNode {
+    fancy_names_with(n, "")
+}
+
+/// [fancy_names] with further characters appended to every player infoset name (multi-byte ones make
+/// most byte offsets of a diagnostic that quotes the input fall inside a character)
+pub fn fancy_names_with(n: &HNode, extra: &str) -> HNode {
     match n {
         HNode::Term(p) => HNode::Term(*p),
-        HNode::Chance { info, outs } => HNode::Chance { info: info.as_ref().map(|s| format!("deal \"{}\"", s)), outs: outs.iter().map(|(w, k)| (*w, fancy_names(k))).collect() },
+        HNode::Chance { info, outs } => HNode::Chance { info: info.as_ref().map(|s| format!("deal \"{}\"", s)), outs: outs.iter().map(|(w, k)| (*w, fancy_names_with(k, extra))).collect() },
         HNode::Player { p, info, acts } => HNode::Player {
             p: *p,
-            info: format!("info \"{}\" \u{e9}\\", info),
-            acts: acts.iter().map(|(a, k)| (format!("{} \"do\"", a), fancy_names(k))).collect(),
+            info: format!("info \"{}\" \u{e9}{}\\", info, extra),
+            acts: acts.iter().map(|(a, k)| (format!("{} \"do\"", a), fancy_names_with(k, extra))).collect(),
         },
     }
 }
